@@ -61,6 +61,11 @@ def configs(tier, seed):
             if tier == "quick" and slow:
                 continue
             cfgs.append(dict(name=f"pair{k} translated, {fixed[0]}={fixed[1]}", fixed=list(fixed), **base))
+    # a segment that passes through an interior vertex of a polyline for every value of the translation: the crossing is
+    # found from both adjacent pieces and must still be reported once
+    cfgs.append(dict(name="crossing at a vertex, dy=0", kind="translate", floats=True, fixed=["dy", "0"],
+                     VA=[["0", "0"], ["1.3", "2.1"], ["2.9", "3.7"]], KA=["0", "1", "2"],
+                     VB=[["-0.5", "2.1"], ["3.1", "2.1"]], KB=["0", "1"], dxrange=["-1/2", "1/2"]))
     cfgs.append(dict(name="bounding boxes never reject crossing segments", kind="box"))
     return cfgs
 
@@ -108,7 +113,8 @@ def body(env, cfg):
     KA, KB = [conv(x) for x in cfg["KA"]], [conv(x) for x in cfg["KB"]]
     if cfg["fixed"][0] == "dy":
         dx, dy = env.real("dx", nice=(-2, 2)), env.const(F(cfg["fixed"][1]))
-        env.assume((dx <= 3) & (dx >= -3))
+        lo_, hi_ = [F(x) for x in cfg.get("dxrange", ["-3", "3"])]
+        env.assume((dx <= hi_) & (dx >= lo_))
     else:
         dx, dy = env.const(F(cfg["fixed"][1])), env.real("dy", nice=(-2, 2))
         env.assume((dy <= 3) & (dy >= -3))
@@ -153,5 +159,14 @@ def body(env, cfg):
                 found = found | ((e1 <= tol) & (-e1 <= tol) & (e2 <= tol) & (-e2 <= tol))
             env.holds(f"the transversal crossing of segment {i} of A and segment {j} of B is returned with its parameters",
                       (~inside) | found if env.sym else (not bool(inside)) or bool(found))
+    if "dxrange" in cfg:
+        # the crossing at the vertex (1.3, 2.1) of A, parameter 1 on A, must be reported exactly once
+        ustar = (F(13, 10) - (F(-1, 2) + dx)) / F(36, 10)
+        hits = 0
+        for (t, u) in res:
+            e1, e2 = t - 1, u - ustar
+            if bool((e1 <= tol) & (-e1 <= tol) & (e2 <= tol) & (-e2 <= tol)):
+                hits += 1
+        env.holds("the crossing at the polyline vertex is reported, once", hits == 1 and len(res) == 1)
     # "curves that do not meet give ()" is the contrapositive of the per-pair obligation above: every returned pair has
     # |A(t) - B(u)| <= 1e-6, so a non-empty result means the curves meet (to 1e-6)
